@@ -22,6 +22,7 @@ import (
 
 type c19Case struct {
 	UP4      bool   `json:"up4,omitempty"`
+	V        int    `json:"v,omitempty"` // UP4 configuration variant (slice id, default TC)
 	Method   string `json:"method"`
 	Body     string `json:"body"`
 	Kind     string `json:"kind"` // valid | malformed | truncated | method
@@ -46,7 +47,10 @@ func genRate(t *rapid.T, label string) uint64 {
 }
 
 func genC19(t *rapid.T) c19Case {
-	c := c19Case{UP4: false}
+	c := c19Case{UP4: rapid.IntRange(0, 3).Draw(t, "up4") == 0}
+	if c.UP4 {
+		c.V = rapid.IntRange(0, len(up4Variants)-1).Draw(t, "variant")
+	}
 	switch rapid.IntRange(0, 9).Draw(t, "kind") {
 	case 0, 1, 2, 3, 4:
 		c.Kind = "valid"
@@ -169,15 +173,15 @@ func bitsMul(a, b uint64) (uint64, uint64) {
 	return hi, lo
 }
 
-func sliceRig(up4 bool) (*Rig, error) {
-	if up4 {
-		return sharedRig("up4-plain", RigOpts{UP4: true})
+func sliceRig(c c19Case) (*Rig, error) {
+	if c.UP4 {
+		return up4Rig(c.V)
 	}
 	return sharedRig("bess-noalloc", RigOpts{})
 }
 
 func runC19(c c19Case, ev *Ev) error {
-	r, err := sliceRig(c.UP4)
+	r, err := sliceRig(c)
 	if err != nil {
 		return fmt.Errorf("INFRA: %v", err)
 	}
@@ -186,8 +190,34 @@ func runC19(c c19Case, ev *Ev) error {
 		r.B.WaitQuiet(5 * time.Second)
 		from = r.B.LogLen()
 	} else {
+		r.P4.WaitQuiet(5 * time.Second)
 		from = r.P4.LogLen()
 	}
+	// a burst that is zero or absent in one direction must be programmed the same whether or not the other
+	// direction posts a burst: learn what the same document without any burst programs (BESS, valid documents)
+	calPbs := map[string]uint64{}
+	if r.B != nil && c.Kind == "valid" && (c.ULBurst == 0) != (c.DLBurst == 0) {
+		q := map[string]any{"uplinkMbr": c.UL, "downlinkMbr": c.DL}
+		if c.HasUnit {
+			q["bitrateUnit"] = c.Unit
+		}
+		b, _ := json.Marshal(map[string]any{"sliceName": "slice1", "sliceQos": q})
+		cal := c
+		cal.Body, cal.ULBurst, cal.DLBurst = string(b), 0, 0
+		if st, _, _, err := rawHTTP(r.A.HTTP, cal); err == nil && st == 201 {
+			r.B.WaitQuiet(5 * time.Second)
+			for _, e := range r.B.Snap().Slice {
+				if len(e.Fields) == 2 && e.Fields[0] == 1 && e.Fields[1] == 0 {
+					calPbs["uplink"] = e.Pbs
+				}
+				if len(e.Fields) == 2 && e.Fields[0] == 0 && e.Fields[1] == 1 {
+					calPbs["downlink"] = e.Pbs
+				}
+			}
+		}
+		from = r.B.LogLen()
+	}
+	seq0 := rig.Events.Load()
 	status, body, nStatus, err := rawHTTP(r.A.HTTP, c)
 	if err != nil {
 		if strings.HasPrefix(err.Error(), "INFRA:") {
@@ -202,6 +232,16 @@ func runC19(c c19Case, ev *Ev) error {
 			if cm.Module == "sliceMeter" {
 				cmds = append(cmds, cm)
 			}
+		}
+	}
+	nWrites := 0
+	if r.P4 != nil {
+		r.P4.WaitQuiet(5 * time.Second)
+		for _, w := range r.P4.LogSince(from) {
+			nWrites += w.N
+		}
+		if c.Kind != "valid" && nWrites != 0 {
+			return fmt.Errorf("%s request of kind %s (%q) made the agent write %d update(s) to the switch, want none", c.Method, c.Kind, c.Body, nWrites)
 		}
 	}
 	if nStatus != 1 {
@@ -247,6 +287,9 @@ func runC19(c c19Case, ev *Ev) error {
 				if burst != 0 && e.Pbs != burst {
 					return fmt.Errorf("%s slice meter pbs %d, want the posted burst %d", dir, e.Pbs, burst)
 				}
+				if cal, ok := calPbs[dir]; ok && burst == 0 && e.Pbs != cal {
+					return fmt.Errorf("%s slice meter pbs %d for a document that posts no %s burst; the same document without any burst programs %d (the other direction's burst leaked)", dir, e.Pbs, dir, cal)
+				}
 				return nil
 			}
 			if err := check("uplink", find(1, 0), c.UL, c.ULBurst); err != nil {
@@ -254,6 +297,47 @@ func runC19(c c19Case, ev *Ev) error {
 			}
 			if err := check("downlink", find(0, 1), c.DL, c.DLBurst); err != nil {
 				return err
+			}
+		} else {
+			// UP4 has one slice/TC meter cell for both directions: (slice id << 2) + default TC. Asserted when
+			// both posted rates are non-zero and convertible; the cell must then carry the larger converted rate
+			// (as posted in bits/s, or in bytes/s - the statement leaves the cell's unit open) and the burst
+			// posted for that direction.
+			ul, okU := convRate(c.UL, c.Unit, c.HasUnit)
+			dl, okD := convRate(c.DL, c.Unit, c.HasUnit)
+			if okU && okD {
+				uv := up4Variants[c.V]
+				idx := int64(uv.Slice)<<2 + int64(uv.DefaultTC)
+				m := r.P4.Meter("slice_tc_meter", idx)
+				if m == nil || m.Seq <= seq0 || m.Cfg == nil {
+					return fmt.Errorf("201 for slice rates %d/%d %s but slice_tc_meter cell %d (slice %d, TC %d) was not written (%d updates seen)", c.UL, c.DL, c.Unit, idx, uv.Slice, uv.DefaultTC, nWrites)
+				}
+				want, burst := ul, []uint64{c.ULBurst}
+				if dl > ul {
+					want, burst = dl, []uint64{c.DLBurst}
+				} else if dl == ul {
+					burst = []uint64{c.ULBurst, c.DLBurst}
+				}
+				if want > math.MaxInt64/2 {
+					nontriv = true
+				}
+				if uint64(m.Cfg.Pir) != want && uint64(m.Cfg.Pir) != want/8 {
+					return fmt.Errorf("slice_tc_meter cell %d pir %d, want the larger of the posted rates: %d bit/s (or %d bytes/s) for %d/%d %s", idx, m.Cfg.Pir, want, want/8, c.UL, c.DL, c.Unit)
+				}
+				okBurst := false
+				for _, b := range burst {
+					okBurst = okBurst || b == 0 || b >= 1<<63 || uint64(m.Cfg.Pburst) == b
+				}
+				if !okBurst {
+					return fmt.Errorf("slice_tc_meter cell %d pburst %d, want the burst posted for the direction with the larger rate (%v)", idx, m.Cfg.Pburst, burst)
+				}
+				for _, w := range r.P4.LogSince(from) {
+					for _, u := range w.Updates {
+						if me := u.Entity.GetMeterEntry(); me == nil || me.Index == nil || me.Index.Index != idx {
+							return fmt.Errorf("a slice configuration wrote something else than slice_tc_meter cell %d: %v", idx, w.Kinds)
+						}
+					}
+				}
 			}
 		}
 	case "malformed", "truncated":
@@ -276,13 +360,14 @@ func runC19(c c19Case, ev *Ev) error {
 		}
 	}
 	ev.Label(c.Kind)
+	ev.Label(fmt.Sprintf("up4=%v/%s", c.UP4, c.Kind))
 	ev.Case(c, nontriv, len(c.Body))
 	return nil
 }
 
 func TestC19(t *testing.T) {
 	ev := newEv("C19")
-	ev.Rule = "real HTTP requests to /v1/config/network-slices of the in-process agent: PUT/POST of generated slice documents (all units incl. absent/unknown, 64-bit rates and bursts with overflow boundaries), malformed and truncated bodies, other methods; non-trivial = valid document whose converted rate is within a factor 2 of 2^63, or a malformed/unreadable body; distinct by request"
+	ev.Rule = "real HTTP requests to /v1/config/network-slices of the in-process agent on BESS (3 of 4 cases) and UP4 (three slice id / default TC configurations): PUT/POST of generated slice documents (all units incl. absent/unknown, 64-bit rates and bursts with overflow boundaries), malformed and truncated bodies, other methods; non-trivial = valid document whose converted rate is within a factor 2 of 2^63, or a malformed/unreadable body; distinct by request"
 	ev.Assume = []string{"unknown unit strings and zero bursts/rates are generated but nothing is asserted about what they program (the statement is silent)"}
 	runProp(t, ev, "req", true, genC19, runC19)
 }
